@@ -1,10 +1,139 @@
 (* C11 -- Hexagonal mesh and torus path functions return true shortest paths.
-   Property theorems only; each is closed by `exact` of a lemma of Proofs/Geometry.v. *)
+   Property theorems only; each is closed by `exact` of a lemma of Proofs/Geometry.v or
+   Proofs/GeometryHex.v.
+
+   What the statements are about.  shortest_mesh_path_length, shortest_torus_path_length, minimise_xyz,
+   to_xyz, Links.from_vector / to_vector / opposite are the definitions of Generated/GenGeometry.v,
+   translated from the current text of rig/geometry.py and rig/links.py on every run (with the live
+   link tables of Generated/GenGeometryLinks.v).  shortest_mesh_path, shortest_torus_path,
+   longest_dimension_first, concentric_hexagons are the hand models of Model/Geometry.v, compared with
+   the implementation on every run.  "Distance" is never a formula: Spec/Geometry.v defines the mesh and
+   the torus as graphs over the six link vectors and the distance as the least length of a walk.
+
+   Random draws: random.random() = k / 2^53 is the argument k (any integer for shortest_torus_path,
+   whose tie-break only compares draws; 0 <= k < 2^53 for longest_dimension_first, whose key is a float
+   sum); random.randint is the function argument rint, constrained only by its contract. *)
 From Coq Require Import ZArith List Bool.
 Require Import Rig.Model.Base Rig.Generated.GenGeometryLinks Rig.Generated.GenGeometry
-        Rig.Model.Geometry Rig.Spec.Geometry Rig.Proofs.Geometry.
+        Rig.Model.Geometry Rig.Spec.Geometry Rig.Proofs.Geometry Rig.Proofs.GeometryHex.
 Import ListNotations.
 Open Scope Z_scope.
 
+(* ---- mesh: the reported length is the graph distance, for all three-axis representations *)
+Theorem C11_mesh_length_is_distance :
+  forall s d, is_mesh_distance (to2d s) (to2d d) (shortest_mesh_path_length s d).
+Proof. exact mesh_length_is_distance. Qed.
+
+(* the reported vector has exactly that many hops and leads from the source to the destination, both
+   arithmetically and as the walk of links it denotes *)
+Theorem C11_mesh_path_vector :
+  forall s d,
+    hops (shortest_mesh_path s d) = shortest_mesh_path_length s d /\
+    chip_add (to2d s) (to2d (shortest_mesh_path s d)) = to2d d /\
+    mesh_walk (to2d s) (vector_walk (shortest_mesh_path s d)) = to2d d /\
+    len (vector_walk (shortest_mesh_path s d)) = shortest_mesh_path_length s d.
+Proof. exact mesh_path_vector. Qed.
+
+(* ---- torus: every width and height >= 1 (1 x N and 2 x N included) *)
+Theorem C11_torus_length_is_distance :
+  forall s d w h, 1 <= w -> 1 <= h ->
+    is_torus_distance w h (wrap w h (to2d s)) (wrap w h (to2d d)) (shortest_torus_path_length s d w h).
+Proof. exact torus_length_is_distance. Qed.
+
+(* every outcome of the four tie-break draws and of the spiral draw *)
+Theorem C11_torus_path_vector :
+  forall k0 k1 k2 k3 rint s d w h, 1 <= w -> 1 <= h -> randint_contract rint ->
+    exists v, shortest_torus_path k0 k1 k2 k3 rint s d w h = Ok v /\
+              hops v = shortest_torus_path_length s d w h /\
+              wrap w h (chip_add (to2d s) (to2d v)) = wrap w h (to2d d) /\
+              torus_walk w h (wrap w h (to2d s)) (vector_walk v) = wrap w h (to2d d) /\
+              len (vector_walk v) = shortest_torus_path_length s d w h.
+Proof. exact torus_path_vector. Qed.
+
+(* the guards 1 <= w, 1 <= h are exactly the domain: a zero size is the only error (ZeroDivisionError) *)
+Theorem C11_torus_path_error :
+  forall k0 k1 k2 k3 rint s d w h,
+    shortest_torus_path k0 k1 k2 k3 rint s d w h = OtherError <-> (w = 0 \/ h = 0).
+Proof. exact torus_path_error. Qed.
+
+Theorem C11_torus_length_error :
+  forall s d w h, torus_path_length_checked s d w h = OtherError <-> (w = 0 \/ h = 0).
+Proof. exact torus_length_error. Qed.
+
+(* History (repaired in /repo by commit e32a46f): the code as found keyed the approaches by the float
+   sum distance + random(); for the legal draws 0 and 1 - 2^-53 it returned a two-hop vector between
+   chips at distance one. *)
+Theorem C11_torus_path_float_key_refuted :
+  exists k0 k1 k2 k3 rint s d w h v,
+    0 <= k0 < two53 /\ 0 <= k1 < two53 /\ 0 <= k2 < two53 /\ 0 <= k3 < two53 /\
+    randint_contract rint /\ 1 <= w /\ 1 <= h /\
+    shortest_torus_path_orig k0 k1 k2 k3 rint s d w h = Ok v /\
+    hops v <> shortest_torus_path_length s d w h.
+Proof. exact torus_path_float_key_refuted. Qed.
+
+(* all three-axis representations of the same chips give the same lengths; to_xyz is one of them *)
+Theorem C11_lengths_independent_of_representation :
+  forall s d s' d', to2d s = to2d s' -> to2d d = to2d d' ->
+    shortest_mesh_path_length s d = shortest_mesh_path_length s' d' /\
+    forall w h, shortest_torus_path_length s d w h = shortest_torus_path_length s' d' w h.
+Proof. exact lengths_independent_of_representation. Qed.
+
+Theorem C11_to_xyz : forall xy, to2d (to_xyz xy) = xy.
+Proof. exact to_xyz_to2d. Qed.
+
+(* ---- longest dimension first: for every outcome of the three draws, with or without wrapping *)
+Theorem C11_ldf_walk :
+  forall k0 k1 k2 v start width height,
+    0 <= k0 < two53 -> 0 <= k1 < two53 -> 0 <= k2 < two53 -> size_ok width -> size_ok height ->
+    exists out, longest_dimension_first k0 k1 k2 v start width height = Ok out /\
+                ldf_spec v start width height out.
+Proof. exact ldf_walk. Qed.
+
+(* ---- links *)
+Theorem C11_links_members : links_members = map link_num all_links.
+Proof. exact links_members_are_the_six. Qed.
+
 Theorem C11_links_to_vector : forall l, links_to_vector (link_num l) = Some (link_vec l).
 Proof. exact links_to_vector_spec. Qed.
+
+Theorem C11_links_opposite : forall l, links_opposite (link_num l) = link_num (link_opp l).
+Proof. exact links_opposite_spec. Qed.
+
+Theorem C11_links_opposite_involutive :
+  forall l, links_opposite (links_opposite (link_num l)) = link_num l.
+Proof. exact links_opposite_involutive. Qed.
+
+Theorem C11_links_opposite_vector :
+  forall l, links_to_vector (links_opposite (link_num l)) = Some (- fst (link_vec l), - snd (link_vec l)).
+Proof. exact links_opposite_vector. Qed.
+
+Theorem C11_links_from_to_vector : forall l, links_from_vector (link_vec l) = Some (link_num l).
+Proof. exact links_from_to_vector. Qed.
+
+Theorem C11_links_from_vector_only_links :
+  forall v n, links_from_vector v = Some n -> exists l, link_num l = n.
+Proof. exact links_from_vector_only_links. Qed.
+
+(* the difference of two chips joined by a wrap-around link is mapped back to that link on every
+   system larger than 2 x 2 (the domain stated by from_vector's docstring) *)
+Theorem C11_links_from_vector_wrap :
+  forall w h p l, 3 <= w -> 3 <= h -> 0 <= fst p < w -> 0 <= snd p < h ->
+    links_from_vector (chip_sub (torus_step w h p l) p) = Some (link_num l).
+Proof. exact links_from_vector_wrap. Qed.
+
+(* ---- concentric hexagons: no duplicates, exactly the chips within distance R, nearest ring first *)
+Theorem C11_hexagons_spec :
+  forall R start, 0 <= R -> hexagons_spec R start (concentric_hexagons R start).
+Proof. exact hexagons_ok. Qed.
+
+(* ---- the hypotheses are satisfiable, the conclusions not vacuous *)
+Example C11_torus_path_instance :
+  shortest_torus_path 0 0 0 0 ex_rint (0, 0, 0) (5, 0, 0) 20 2 = Ok (1, 0, -4) /\
+  shortest_torus_path_length (0, 0, 0) (5, 0, 0) 20 2 = 5 /\ randint_contract ex_rint.
+Proof. exact ex_torus_path. Qed.
+
+Example C11_ldf_instance :
+  longest_dimension_first 0 0 0 (1, 0, -4) (0, 0) (Some 20) (Some 2) =
+  Ok [(1, (1, 1)); (1, (2, 0)); (1, (3, 1)); (1, (4, 0)); (0, (5, 0))] /\
+  0 <= 0 < two53 /\ size_ok (Some 20) /\ size_ok (Some 2).
+Proof. exact ex_ldf. Qed.
